@@ -747,9 +747,25 @@ fn drive_op(r: &mut StdRng, sys: &Sys, step: usize, untils: &mut std::collection
     };
     let kind = *pick(r, kinds);
     let t = if !topics.is_empty() && r.gen_bool(0.7) { *pick(r, &topics) } else { *pick(r, &TOPICS) };
-    let i = *pick(r, &ISSUERS);
+    // issuers currently trusted for t; keys the chosen issuer currently allows for t
+    let for_t: Vec<&str> = if topics.contains(&t) {
+        let l = ra.get_claim_topic_issuers(&topic_no(t));
+        ISSUERS.iter().copied().filter(|i| l.contains(sys.names.get(i))).collect()
+    } else {
+        vec![]
+    };
+    let i = if !for_t.is_empty() && r.gen_bool(0.7) { *pick(r, &for_t) } else { *pick(r, &ISSUERS) };
     let id = *pick(r, &IDS);
-    let k = *pick(r, &["k1", "k1", "k1", "k2", "k3"]);
+    let ic = issuer::IssuerClient::new(e, &sys.names.get(i));
+    let allowed: Vec<&str> = KEYS
+        .iter()
+        .copied()
+        .filter(|k| {
+            let km = sys.key(k);
+            ic.is_key_allowed_for_topic(&Bytes::from_slice(e, &km.public), &km.scheme, &topic_no(t))
+        })
+        .collect();
+    let k = if !allowed.is_empty() && r.gen_bool(0.7) { *pick(r, &allowed) } else { *pick(r, &KEYS) };
     match kind {
         "add_topic" | "rm_topic" => mkop(kind, t, none, none, none, none, vec![], none, 0, 0),
         "add_issuer" | "upd_issuer" => {
